@@ -21,6 +21,7 @@ sca macalcR | lacalcR <ins> <bases>                -> same answers   (the implem
 sca mrcalcv | mridxv | mrratev <eps,…> <factor,…> <rd> <ins> <bases>   (an array of factors, element by element)
 sca ratefi  <ins> <k,…>                            -> r,… | ERR      (rate_from_bracket_indice)
 sca copyk   <ma|sa|la> <ins> <bases>               -> <scale>|v,… | ERR   (copy of the other scale kinds)
+sca hist    <step>;… <bases>                       -> one token per step;#r0&r1&r2&r3   (histories, see `histStep`)
 (`<bases>` may start with `i:`: the implementation side then passes an integer array; in `seq` an operand `@` is the receiver itself)
 sca seq     <ins>;<ins>;… <bases>                  -> <scale>|v,…    (receiver.add_tax_scale(each))
 sca cts     <ins|none> <ins|x>;…|. <bases>         -> <scale>|v,… | none   (combine_tax_scales; `x` = a child
@@ -103,6 +104,67 @@ def calc0 (s : Scale) (xs : List Rat) : List Rat := calcMRVec 0 1 none s xs
 
 def withCalc (s : Scale) (xs : List Rat) : String := s!"{showScale s}|{showVals (calc0 s xs)}"
 
+/-! ### histories: a sequence of operations on four scale objects `r0 … r3`
+
+`sca hist <step>;<step>;… <bases>`; the fields of a step are separated by `_`:
+`new_d_<ins>`, `addb_d_t_r`, `addts_d_s`, `multi_d_k` / `mulri_d_k` (in place), `mult_d_s_k` / `mulr_d_s_k` /
+`sts_d_s_k` / `inv_d_s` / `avgrt_d_s` / `copy_d_s` (`r_d := op(r_s)`), `calc_s`.  Answer: one token per step
+(`<scale of r_d>|<calc of r_d at the bases>`, `ERR` when the operation raises — `r_d` is then unchanged —,
+the values for `calc_s`), then `#` and the four scales, all joined by `;`.  The model is pure: every
+step is recomputed from the brackets alone, so any hidden state of the implementation (a memo that
+survives a mutation, a shared list) shows as a difference. -/
+
+def histStep (xs : List Rat) (regs : List Scale) (step : String) : Option (List Scale × String) :=
+  let reg? (t : String) : Option Nat := t.toNat?.filter (· < regs.length)
+  let put (d : Nat) (r : Scale) : Option (List Scale × String) := some (regs.set d r, withCalc r xs)
+  let putE (d : Nat) (r : Except String Scale) : Option (List Scale × String) :=
+    match r with
+    | .ok r => put d r
+    | .error _ => some (regs, "ERR")
+  match step.splitOn "_" with
+  | ["new", d, ins] => do put (← reg? d) (← parseScale? ins)
+  | ["addb", d, t, r] => do
+    let d ← reg? d
+    put d (addBracket (regs.getD d []) (← parseRat? t) (← parseRat? r))
+  | ["addts", d, s] => do
+    let d ← reg? d; let s ← reg? s
+    put d (addTaxScale (regs.getD d []) (regs.getD s []))
+  | ["multi", d, k] => do
+    let d ← reg? d
+    put d (multiplyThresholds (regs.getD d []) (← parseRat? k) none)
+  | ["mulri", d, k] => do
+    let d ← reg? d
+    put d (multiplyRates (regs.getD d []) (← parseRat? k))
+  | ["mult", d, s, k] => do
+    let d ← reg? d; let s ← reg? s
+    put d (multiplyThresholds (regs.getD s []) (← parseRat? k) none)
+  | ["mulr", d, s, k] => do
+    let d ← reg? d; let s ← reg? s
+    put d (multiplyRates (regs.getD s []) (← parseRat? k))
+  | ["sts", d, s, k] => do
+    let d ← reg? d; let s ← reg? s
+    put d (scaleTaxScales (regs.getD s []) (← parseRat? k))
+  | ["inv", d, s] => do
+    let d ← reg? d; let s ← reg? s
+    putE d (inverse (regs.getD s []))
+  | ["avgrt", d, s] => do
+    let d ← reg? d; let s ← reg? s
+    putE d (toAverage (regs.getD s []) >>= toMarginal)
+  | ["copy", d, s] => do
+    let d ← reg? d; let s ← reg? s
+    put d (copy (regs.getD s []))
+  | ["calc", s] => do
+    let s ← reg? s
+    some (regs, showVals (calc0 (regs.getD s []) xs))
+  | _ => none
+
+def runHist (xs : List Rat) : List String → List Scale → List String → Option String
+  | [], regs, acc => some (";".intercalate (acc.reverse ++ ["#" ++ "&".intercalate (regs.map showScale)]))
+  | st :: rest, regs, acc =>
+    match histStep xs regs st with
+    | some (regs', tok) => runHist xs rest regs' (tok :: acc)
+    | none => none
+
 def handleSca (args : List String) : String :=
   match args with
   | ["build", ins] => match parseScale? ins with
@@ -173,6 +235,9 @@ def handleSca (args : List String) : String :=
     | _ => "BAD"
   | [op, a, b] =>
     match op with
+    | "hist" => match parseBases? b with
+      | some xs => (runHist xs (a.splitOn ";") [[], [], [], []] []).getD "BAD"
+      | none => "BAD"
     | "macalc" | "macalcR" => match parseScale? a, parseBases? b with
       | some s, some xs => showVals (xs.map (calcMA s))
       | _, _ => "BAD"
